@@ -410,3 +410,38 @@ func EmptyTest(iff *ssa.If) (v ssa.Value, emptySucc int, ok bool) {
 	}
 	return nil, 0, false
 }
+
+// LiveBlocks returns the blocks reachable from the entry when edges that
+// contradict constant conditions (e.g. runtime.GOOS == "darwin" on another
+// GOOS) are not followed.
+func LiveBlocks(fn *ssa.Function) map[*ssa.BasicBlock]bool {
+	live := map[*ssa.BasicBlock]bool{}
+	if len(fn.Blocks) == 0 {
+		return live
+	}
+	work := []*ssa.BasicBlock{fn.Blocks[0]}
+	live[fn.Blocks[0]] = true
+	for len(work) > 0 {
+		b := work[len(work)-1]
+		work = work[:len(work)-1]
+		for k, s := range b.Succs {
+			if constEdgeDead(Edge{b, k}) || live[s] {
+				continue
+			}
+			live[s] = true
+			work = append(work, s)
+		}
+	}
+	return live
+}
+
+// LiveEdge reports whether the CFG edge from pred to b can be taken given
+// constant conditions.
+func LiveEdge(pred, b *ssa.BasicBlock) bool {
+	for k, s := range pred.Succs {
+		if s == b && !constEdgeDead(Edge{pred, k}) {
+			return true
+		}
+	}
+	return false
+}
